@@ -3,6 +3,7 @@ package mocrelay_test
 import (
 	"context"
 	"fmt"
+	"math"
 	"math/rand/v2"
 	"reflect"
 	"runtime"
@@ -356,7 +357,10 @@ func (g *c17Gen) createdAt() (int64, string) {
 	for try := 0; try < 40; try++ {
 		var at int64
 		var rel string
-		switch k := r.IntN(8); {
+		switch k := r.IntN(9); {
+		case k == 8: // absurdly far in the future: where seconds * 1e9 or conversions to time.Time overflow
+			at, rel = vk.Pick(r, []int64{math.MaxInt64, math.MaxInt64 - 1, 9223371974719179008, 9223371974719179007, 1 << 62,
+				now * 1000, now*1000 + int64(r.IntN(86400000)), now + 10000000000, now + 18446744073, now + 9223372037}), "absurd+"
 		case k == 0:
 			at, rel = now+int64(r.IntN(61))-30, "now"
 		case k <= 4 && len(bs) > 0:
@@ -1850,7 +1854,7 @@ func c17RandomMW(r *rand.Rand, kind string) c17MW {
 	case "content":
 		m.N = vk.Pick(r, []int64{1, 2, 10, 100, 1000})
 	case "lower", "upper":
-		m.N = vk.Pick(r, []int64{1, 59, 600, 86400, 10 * c17Year})
+		m.N = vk.Pick(r, []int64{0, 1, 59, 600, 86400, 10 * c17Year})
 	case "window":
 		m.From = vk.Pick(r, []int64{-10 * c17Year, -86400, -600, -1, 0, 300})
 		m.To = m.From + vk.Pick(r, []int64{1, 600, 86400, 86400, 5 * c17Year})
